@@ -91,6 +91,10 @@ func c04run(out *rec.Out, c c04case, rng *rec.Rng, stats map[string]int) {
 	for k, v := range vars {
 		anyVars[k] = v
 	}
+	if rng.Intn(2) == 0 {
+		g.ShuffleDecl(rng.Intn)
+		stats["shuffled_declaration_order"]++
+	}
 	in, defs, err := eng.Start(g.XML(), anyVars)
 	if err != nil {
 		out.Line("harness-error %v", err)
